@@ -176,9 +176,9 @@ pub fn run(ctx: &Ctx, rep: &mut Report) {
                     let mut v = 0u64;
                     while v < total {
                         vals.push(v);
-                        v += 997;
+                        v += 211;
                     }
-                    for _ in 0..(1 << 16) {
+                    for _ in 0..(1 << 18) {
                         vals.push(r.bits(width as u32));
                     }
                     let mut it = vals.into_iter();
@@ -206,7 +206,7 @@ pub fn run(ctx: &Ctx, rep: &mut Report) {
         }
         // joint random messages through the full oracle (all C10 fields at once)
         if ctx.mine(item) {
-            for _ in 0..ctx.budget(2000, 100_000) {
+            for _ in 0..ctx.budget(20_000, 300_000) {
                 let bits = fresh(b, &mut r);
                 n += 1;
                 rep.class(format!("t{}|joint", b.t));
